@@ -17,6 +17,11 @@ struct Profile {
     int max_posts = 3;
     bool post_root = false, post_enqueue = true, post_defer = false;
     bool post_in_start = false;
+    bool post_enqueue_sub = true;  // enqueue_event aimed at a nested machine (unhandled ones are reported by backmp11 only)
+    bool stop_when_drained = false; // stop() only with empty queues (what happens to pending events over stop/start is back-end specific)
+    bool fault_on_completion_guard = true; // posts / throws attached to evaluations of completion-row guards
+    bool post_sub = true;           // submissions aimed at nested machines (pending ones survive an aborted entry in back only)
+    bool strict_model = false;      // model without the quirks tied to known findings (dedicated jobs that demonstrate them)
     bool allow_reentrant = false; // posts via process_event to a machine that is not marked as processing (known finding KF-1)
     double throw_rate = 0.0;     // probability that an op carries a throw
     int max_throws = 1;
